@@ -372,7 +372,15 @@ Error BaseBuilder::section(Section* section) {
 
   if (!node->is_active()) {
     // Insert the section at the end if it was not part of the code.
-    add_after(node, last_node());
+    BaseNode* last = last_node();
+    if (last) {
+      add_after(node, last);
+    }
+    else {
+      // All nodes were removed - the section node becomes the only node.
+      _cursor = nullptr;
+      add_node(node);
+    }
     _cursor = node;
   }
   else {
@@ -791,6 +799,11 @@ Error BaseBuilder::comment(const char* data, size_t size) {
 Error BaseBuilder::serialize_to(BaseEmitter* dst) {
   Error err = Error::kOk;
   BaseNode* node_ = _node_list.first();
+
+  // Nothing to serialize if all nodes were removed.
+  if (!node_) {
+    return err;
+  }
 
   Operand_ op_array[Globals::kMaxOpCount];
 
